@@ -17,7 +17,7 @@ RULE = ('Hypothesis draws (fchans,tchans,df,dt,fch1,orientation,t_start,construc
         'and (df,dt) not the library defaults; distinct by hash of the case.')
 ASSUMPTIONS = ['closed forms are evaluated in double precision with a 64-ulp(fmax) tolerance on '
                'frequencies and 4 ulp on times', 'exact half-channel ties are not generated']
-REQUIRED_CLASSES = ['route=sizes', 'route=shape', 'route=data', 'route=from_data', 'route=units',
+REQUIRED_CLASSES = ['sibling_frame_first', 'route=sizes', 'route=shape', 'route=data', 'route=from_data', 'route=units',
                     'route=backend', 'asc', 'desc', 'product_sized']
 
 
@@ -45,7 +45,8 @@ def strategy_(draw, tier):
                        fftlength=draw(st.sampled_from([1, 16, 1024, 1048576])),
                        int_factor=draw(st.integers(1, 60)),
                        frac=draw(gen.finite(0.05, 0.95)))
-    return dict(g=g, deltas=[list(d) for d in deltas], sig=sig, pair=list(pair), backend=backend)
+    return dict(g=g, deltas=[list(d) for d in deltas], sig=sig, pair=list(pair), backend=backend,
+                sibling=draw(st.sampled_from([None, None, 'opposite', 'opposite', 'wider', 'longer'])))
 
 
 def strategy(tier):
@@ -89,6 +90,19 @@ def run_case(case, ctx):
                 if not _close(pd['dt'], g['dt'], 4 * gen.ulp(g['dt'])):
                     obs.fail('backend_dt', f"{pd['dt']} vs {g['dt']}")
     else:
+        sib = case.get('sibling')
+        if sib:
+            # a frame with the very same size, resolution and fch1 existed earlier in the session: of the opposite
+            # orientation, or with another channel / integration count
+            obs.cls('sibling_frame_first')
+            g0 = dict(g, route='sizes')
+            if sib == 'opposite':
+                g0['ascending'] = not g['ascending']
+            elif sib == 'wider':
+                g0['fchans'] = g['fchans'] + 3
+            else:
+                g0['tchans'] = g['tchans'] + 2
+            core.call(obs, 'construct_sibling', gen.make_frame, stg, g0)
         ok, fr = core.call(obs, 'construct', gen.make_frame, stg, g)
         obs.cls('route=' + g['route'])
     if not ok:
